@@ -454,6 +454,39 @@ func c19Sinks(w *W) {
 		both(a)
 		a.Stop()
 	})
+	add("rolling:retention-scan-while-entries-vanish", func() {
+		// thousands of expired own files; a rotation starts the asynchronous retention scan while another
+		// goroutine removes the same files: a failing stat must be skipped, not crash the process
+		d3 := filepath.Join(dir, "vanish")
+		_ = os.MkdirAll(d3, 0755)
+		old := time.Now().Add(-100 * time.Hour)
+		var names []string
+		for i := 0; i < 3000; i++ {
+			p := filepath.Join(d3, fmt.Sprintf("v.log.2020%02d%02d%02d%02d%02d", 1+i%12, 1+i%28, i%24, i%60, (i/60)%60))
+			if os.WriteFile(p, []byte("x"), 0644) == nil {
+				_ = os.Chtimes(p, old, old)
+				names = append(names, p)
+			}
+		}
+		a := &log.RollingFileAppender{Layout: tl(), FileDir: d3, FileName: "v.log", Rotation: log.TimeRotation{Interval: time.Second}, MaxAge: 1}
+		_ = a.Start()
+		for round := 0; round < 2; round++ {
+			now := time.Now()
+			time.Sleep(now.Truncate(time.Second).Add(time.Second+2*time.Millisecond).Sub(now))
+			a.Write([]byte("id-v1-1 after boundary\n")) // rotation -> go clearExpiredFiles()
+			for _, p := range names {
+				_ = os.Remove(p)
+			}
+			time.Sleep(150 * time.Millisecond)
+			for _, p := range names { // recreate for the second round
+				if os.WriteFile(p, []byte("x"), 0644) == nil {
+					_ = os.Chtimes(p, old, old)
+				}
+			}
+		}
+		a.Stop()
+		time.Sleep(100 * time.Millisecond)
+	})
 	for name, wr := range map[string]func(){
 		"console:erroring-writer": func() { log.Stdout = errWriter{} },
 		"console:short-writer":    func() { log.Stdout = shortWriter{} },
@@ -509,7 +542,7 @@ func init() {
 	register(&Prop{
 		ID: "C19", Level: "fault_enumeration", MinDistinct: 10, Worker: c19Worker,
 		Rule: "faults: (a) the log directory of a running rolling appender (1 s interval) is renamed away and back - or replaced by a regular file - at 12 enumerated placements relative to real boundaries, plus 3 placements in which the process runs out of descriptors instead (EMFILE on create), (covering one, two or three boundaries, starting right after a successful rotation, restored 40 ms before / after a boundary, two separate outages, back-to-back outages, outage at the first boundary, outage inside one interval only; thorough adds 12 offset sweeps) x {1,2,4} writers issuing self-describing records with call stamps; " +
-			"oracle: no panic, every record present whole exactly once after the restore, every boundary lying outside all outages has a file created in its interval (creation retried), a sequential writer's post-boundary writes are not in an older file. (b) 13 sink-failure scenarios: File/RollingFile appenders never started, after Stop, on /dev/full, with a missing directory at Start and at rotation, directory removed while open; console stream replaced by an erroring writer, a short writer, a closed file, a read-only file - Append and Write must return without panic or block. " +
+			"oracle: no panic, every record present whole exactly once after the restore, every boundary lying outside all outages has a file created in its interval (creation retried), a sequential writer's post-boundary writes are not in an older file. (b) 14 sink-failure scenarios (one of them: the retention scan runs while the directory entries it lists are being removed): File/RollingFile appenders never started, after Stop, on /dev/full, with a missing directory at Start and at rotation, directory removed while open; console stream replaced by an erroring writer, a short writer, a closed file, a read-only file - Append and Write must return without panic or block. " +
 			"Non-trivial/distinct = distinct (placement, writers) runs + sink scenarios that held.",
 		Assumptions: []string{"the outage is produced by rename(2), so descriptors already open stay valid (that is what 'keeps writing to the file it already has' relies on)", "boundaries closer than 30 ms to an outage edge are not judged for retry"},
 		Run: func(d *D) {
